@@ -2,6 +2,8 @@
 //!
 //! Case input:   (idl x<text>)
 //!               (idl-deep <nesting depth> x<text>)   deterministic deep-nesting family (C12)
+//!               (idl-rep <n> x<text>)                the same text parsed <n> times (hash-seed dependent paths):
+//!                                                    every call must give the same observation
 //!               (idl-lim x<text>)                    parsed on the calling thread while the process's
 //!                                                    address-space limit (soft RLIMIT_AS) is its current size
 //!                                                    + 48 MiB: parsing a small text needs a few KiB and must
@@ -21,6 +23,7 @@
 //!   (idl-error x<message> x<to_string()>)
 //!   (panic x<msg>)
 //!   (timeout <deadline ms>) | (skipped)
+//!   (unstable x<first> x<other>)                    idl-rep: two calls on the same text differed
 //!   (display-panic parse|idl <column> x<msg>)       to_string() of the error value panicked
 //!   type   = bool | int | float | string | object | (n x<typename>) | <struct> | <enum>
 //!          | (a type) | (d type) | (o type)
@@ -777,6 +780,7 @@ fn gen_c11(ctx: &Ctx, rng: &mut Rng, cases: &mut Vec<Case>) {
         let text = decorate(rng, &render_idl(&g), style).concat();
         cases.push(case_of(&text, &["dup-random"]));
     }
+    dup_families(ctx.thorough, cases);
     // (5b) identifiers are ASCII: a non-ASCII letter / digit / mark substituted or inserted at every
     //      identifier position class must be rejected (Unicode-aware classes are wider)
     let uni: &[char] = &[
@@ -873,6 +877,52 @@ fn gen_c11(ctx: &Ctx, rng: &mut Rng, cases: &mut Vec<Case>) {
             input: sx::tagged("idl-deep", vec![sx::nat(d), sx::xs(&t)]),
             tags: vec!["nesting".into(), tag.to_string()],
         });
+    }
+}
+
+/// Duplicate-definition families: names that are suffixes / prefixes of one another, and many distinct
+/// clashes at once (k same-kind + m two-kind) — parsed repeatedly because the error set is a HashSet
+/// with a per-instance seed.
+pub fn dup_families(thorough: bool, cases: &mut Vec<Case>) {
+    let pairs = [
+        ("NetworkInfo", "Info"), ("Info", "NetworkInfo"), ("FooBar", "Bar"), ("Ab", "B"), ("Xy", "Xyz"), ("AA", "A"),
+        ("Type", "Pe"), ("GetInfo", "Info"), ("Info", "Info2"),
+    ];
+    let decl = |k: usize, n: &str| -> String {
+        match k % 3 {
+            0 => format!("type {} (a: int)", n),
+            1 => format!("method {}() -> ()", n),
+            _ => format!("error {} ()", n),
+        }
+    };
+    for (a, b) in pairs {
+        for k1 in 0..3 {
+            for k2 in 0..3 {
+                // a twice (kinds k1, k2), then b twice (kinds k2, k1): both must be named
+                let text = format!("interface org.example.dup\n{}\n{}\n{}\n{}\n", decl(k1, a), decl(k2, a), decl(k2, b), decl(k1, b));
+                cases.push(Case { input: sx::tagged("idl-rep", vec![sx::nat(5), sx::xs(&text)]), tags: vec!["dup-suffix".into()] });
+                // interleaved
+                let text = format!("interface org.example.dup\n{}\n{}\n{}\n{}\n", decl(k1, a), decl(k2, b), decl(k2, a), decl(k1, b));
+                cases.push(Case { input: sx::tagged("idl-rep", vec![sx::nat(5), sx::xs(&text)]), tags: vec!["dup-suffix".into()] });
+            }
+        }
+    }
+    let sizes: Vec<(usize, usize)> = if thorough {
+        vec![(1, 1), (3, 3), (10, 10), (10, 11), (12, 12), (15, 10), (20, 20), (21, 0), (0, 21), (5, 20), (25, 3), (30, 30), (40, 40), (60, 60), (100, 100)]
+    } else {
+        vec![(3, 3), (10, 11), (12, 12), (15, 10), (20, 20), (0, 21), (21, 0), (30, 30)]
+    };
+    for (k, m) in sizes {
+        let mut t = String::from("interface org.example.many\n");
+        for i in 0..k {
+            // same-kind clash
+            t.push_str(&format!("{}\n{}\n", decl(i, &format!("Same{}", i)), decl(i, &format!("Same{}", i))));
+        }
+        for i in 0..m {
+            // two-kind clash
+            t.push_str(&format!("{}\n{}\n", decl(i, &format!("Two{}", i)), decl(i + 1, &format!("Two{}", i))));
+        }
+        cases.push(Case { input: sx::tagged("idl-rep", vec![sx::nat(60), sx::xs(&t)]), tags: vec!["dup-many".into()] });
     }
 }
 
@@ -1079,6 +1129,7 @@ fn gen_c12(ctx: &Ctx, rng: &mut Rng, cases: &mut Vec<Case>) {
             tags: vec!["nesting".into(), tag.to_string()],
         });
     }
+    dup_families(ctx.thorough, cases);
     // (5b) long lines: error columns around and beyond 65535 (a 16-bit formatting width), also with
     //      multi-byte characters on the line (byte offset != column)
     let cols: Vec<usize> = if ctx.thorough {
@@ -1158,6 +1209,28 @@ impl Suite for IdlSuite {
             Some(l) if !l.is_empty() => l,
             _ => return sx::atom("bad-case"),
         };
+        if l[0].as_atom() == Some("idl-rep") && l.len() == 3 {
+            let (n, t) = match (l[1].as_usize(), l[2].as_str()) {
+                (Some(n), Some(t)) => (n, t),
+                _ => return sx::atom("bad-case"),
+            };
+            let mut first: Option<Sx> = None;
+            for _ in 0..n.max(1) {
+                let o = match std::panic::catch_unwind(|| observe(&t)) {
+                    Ok(o) => o,
+                    Err(e) => {
+                        let msg = e.downcast_ref::<String>().cloned().or_else(|| e.downcast_ref::<&str>().map(|s| s.to_string())).unwrap_or_else(|| "?".into());
+                        return sx::tagged("panic", vec![sx::xs(&msg)]);
+                    }
+                };
+                match &first {
+                    None => first = Some(o),
+                    Some(f) if *f != o => return sx::tagged("unstable", vec![sx::xs(&f.render()), sx::xs(&o.render())]),
+                    _ => {}
+                }
+            }
+            return first.unwrap();
+        }
         if l[0].as_atom() == Some("idl-lim") && l.len() == 2 {
             return match l[1].as_str() {
                 Some(t) => observe_limited(&t),
